@@ -597,6 +597,62 @@ func (c *c02ctx) r3Typestate() {
 	} else {
 		r.Unk("C02.R3", "ttlv.ttlvReader.Struct/extent", token.NoPos, "anchor missing")
 	}
+	// inside validate() itself the typestate does not hold yet: every accessor it calls on its own reader (they index
+	// the header unconditionally beyond the empty-buffer test) must come after the header-length test
+	if vf := p.Func("ttlv", "ttlvReader", "validate"); vf != nil {
+		n, bad := 0, token.NoPos
+		what := ""
+		allInstrs(vf, func(in ssa.Instruction) {
+			call, ok := in.(*ssa.Call)
+			if !ok || len(call.Call.Args) == 0 {
+				return
+			}
+			id := callID(&call.Call)
+			if id.pkg != ttlvPath || id.recv != "ttlvReader" {
+				return
+			}
+			rcv := call.Call.Args[0]
+			if ld, isLd := rcv.(*ssa.UnOp); isLd && ld.Op == token.MUL {
+				rcv = ld.X
+			}
+			if rcv != ssa.Value(vf.Params[0]) {
+				return
+			}
+			n++
+			guarded := false
+			for _, dc := range dominatingConds(call.Block()) {
+				bo, ok := dc.cond.(*ssa.BinOp)
+				if !ok {
+					continue
+				}
+				y, isLen := lenOperand(bo.X)
+				k, isK := constIntVal(bo.Y)
+				if !isLen || !isK {
+					continue
+				}
+				if u, ok := y.(*ssa.UnOp); ok {
+					if _, fld, ok := fieldAddrOf(u.X); !ok || fname(fld) != "buf" {
+						continue
+					}
+				} else {
+					continue
+				}
+				// len(buf) < 8 false, len(buf) >= 8 true
+				if (bo.Op == token.LSS && !dc.outcome && k >= 8) || (bo.Op == token.GEQ && dc.outcome && k >= 8) || (bo.Op == token.GTR && dc.outcome && k >= 7) || (bo.Op == token.LEQ && !dc.outcome && k >= 7) {
+					guarded = true
+				}
+			}
+			if !guarded {
+				bad, what = call.Pos(), id.name
+			}
+		})
+		switch {
+		case bad.IsValid():
+			r.Bad("C02.R3", "ttlv.ttlvReader.validate/header-first", bad, "validate() calls %s() on its own reader before it has established len(buf) >= 8: the accessor indexes the header beyond an empty-buffer test only, so a remainder of 1-7 bytes (a structure whose declared length exceeds its children by a few bytes) panics with index out of range", what)
+		case n > 0:
+			r.OK("C02.R3", "ttlv.ttlvReader.validate/header-first", vf.Pos(), "%d accessor call(s) inside validate(), all after the header-length test", n)
+		}
+	}
 	// Next ends in validate
 	if next := p.Func("ttlv", "ttlvReader", "Next"); next != nil {
 		ok := true
